@@ -1,6 +1,7 @@
 /- Line-protocol handlers for C04 (Jordan-Wigner). -/
 import OFV.Core.Json
 import OFV.Model.C04
+import OFV.Model.C04Jellium
 import OFV.Spec.C04
 import OFV.Handlers.Common
 
@@ -19,6 +20,18 @@ def parseAlg (j : Json) : Except String Spec.Alg := do
   | "majorana" => .ok .majorana
   | "qubit" => .ok .qubit
   | s => .error s!"bad alg {s}"
+
+/-- `lengths`, `spinless`, tables of `kin` / `pot` indexed by the tensor factor of the displacement, and the
+optional constant (`null` = not included) -/
+def jelliumArgs (j : Json) : Except String (List Nat × Bool × List GQ × List GQ × Option GQ) := do
+  let l ← J.natList (← J.field j "lengths")
+  let sl ← J.bool (← J.field j "spinless")
+  let k ← gqList (← J.field j "kin")
+  let p ← gqList (← J.field j "pot")
+  let c ← match J.fieldD j "constant" Json.null with
+    | Json.null => pure none
+    | cj => do pure (some (← J.gq cj))
+  .ok (l, sl, k, p, c)
 
 /-- the reference operator of a check: given explicitly or by name -/
 def specOp (j : Json) : Except String Spec.C04.Op := do
@@ -83,6 +96,21 @@ def handle (op : String) (j : Json) : Option (Except String Json) :=
   | "c04.dch_ok" => some do
       .ok (Json.bool (C04.jwDCHOk tol (← J.nat (← J.field j "n")) (← J.gq (← J.field j "constant"))
         (← gqList (← J.field j "one")) (← gqList (← J.field j "two"))))
+  | "c04.jellium_model" => some do
+      let (l, sl, k, p, c) ← jelliumArgs j
+      .ok (J.ofOp (C04J.dualBasisModel tol l sl (C04J.tableFn l k) (C04J.tableFn l p) c))
+  | "c04.jellium_model_ok" => some do
+      let (l, sl, k, p, c) ← jelliumArgs j
+      .ok (Json.bool (C04J.dualBasisModelOk tol l sl (C04J.tableFn l k) (C04J.tableFn l p) c))
+  | "c04.jellium_direct" => some do
+      let (l, sl, k, p, c) ← jelliumArgs j
+      .ok (J.ofOp (C04J.jwJelliumDirect tol l sl (C04J.tableFn l k) (C04J.tableFn l p) c))
+  | "c04.jellium_direct_ok" => some do
+      let (l, sl, k, p, c) ← jelliumArgs j
+      .ok (Json.bool (C04J.jwJelliumDirectOk tol l sl (C04J.tableFn l k) (C04J.tableFn l p) c))
+  | "c04.jellium_points" => some do
+      let l ← J.natList (← J.field j "lengths")
+      .ok (J.ofList J.ofNatList (C04J.allPoints l))
   | "c04.reverse" => some do .ok (J.ofOp (C04.reverseJW tol (← J.op (← J.field j "Q"))))
   | "c04.reverse_ok" => some do .ok (Json.bool (C04.reverseJWOk tol (← J.op (← J.field j "Q"))))
   | "c04.jw_check" => some (jwCheck j)
